@@ -20,6 +20,18 @@ CLAIMED = {
  "C07": ("fault_enumeration", "serve-sim", "4.4", "fault injection on the entity stream seam (early end, error, extra byte/chunk, empty chunks, Pending) at sampled positions; seeded",
          "Exactly one stream fault per run across response shapes, fault kinds, parts, byte positions and chunk indices; the evidence lists grid cells hit. Short/failed streams must surface an error before any clean end; long streams never pass on more than announced.",
          "Cells are sampled by seed, not enumerated; the grid reached is reported."),
+ "C08": ("exploration", "chunk-sim", "4.5", "seeded operation histories over the real BodyWriter/Body pair checked against an accepted-byte-log reference model",
+         "Interleaved producer (write, write_all, flush, drop) and consumer (poll, poll-until-pending) operations over chunk sizes 1..65536; frames must be non-empty, a prefix of the accepted bytes at every step, complete after every flush, and equal to the accepted bytes after the writer is dropped.",
+         "Operation-granularity interleavings only (inside-operation interleavings are C10's thread-sim)."),
+ "C09": ("exploration", "chunk-sim", "4.6", "same histories with gzip negotiated; independent hand-written inflater/gzip parser as the client; reference model = accepted bytes",
+         "Levels 1..9, chunk sizes from 1 byte, four payload kinds; after every successful flush the frames obtainable so far must inflate to every accepted byte, and the final body must be exactly one gzip member (CRC, ISIZE, no trailing bytes).",
+         "One open known finding (F6, dependency flate2/miniz_oxide withholds bytes on flush) is identified by comparing with flate2 alone fed the same calls and reported as KNOWN-FINDING; any other shortfall is a violation."),
+ "C11": ("fault_enumeration", "chunk-sim+thread-sim", "4.8", "abort and body-drop injected at drawn positions of operation histories (and, in thread-sim, at every scheduling point); per-thread heap counter for the release clause",
+         "Faults = abort / body drop before any data, mid-chunk, after a flush, after partial consumption, raw and gzip. Abort: next terminal event is an error, never end-of-stream before it, delivered bytes a prefix, later writes/flushes fail. Body drop: flushes with data and chunk-completing writes fail, accepted-without-error bytes stay below one chunk, queued memory is released.",
+         "Weaker reading where the text leaves room: a flush with nothing to hand over may return Ok after the body is gone."),
+ "C17": ("exploration", "chunk-sim", "4.13", "seeded configurations of streaming_body (Accept-Encoding x level x method x request representation); simulated client decodes according to the response header",
+         "Vary always present; Content-Encoding: gzip iff should_gzip(request) && level > 0; the client picks its decoder from the header and must recover exactly the written bytes; HEAD gets no writer.",
+         "should_gzip itself is the negotiation oracle, as the property states."),
  "C12": ("exploration", "serve-sim+chunk-sim+thread-sim+file-sim", "4.9", "per-step invariant monitor attached to every simulated consumer",
          "size_hint()/is_end_stream() sampled before every poll in all engines; bounds must bracket what is later delivered on a clean end, exactness for serve/Body::from, and nothing but the end may follow a true end-of-stream flag.",
          "For serve only contract-honouring entities count (fault-free or failing early with Err)."),
